@@ -284,8 +284,10 @@ func (n *Name) Substitute(old, new Name) {
 			n.Ident = new.Ident
 			n.ChannelID = new.ChannelID
 		}
-	} else if !n.Initialized() && !old.Initialized() && n.Ident == old.Ident {
-		// Names are compared by identifier only while neither is bound to a channel yet
+	} else if !n.Initialized() && !old.Initialized() && !n.IsSelf && n.Ident == old.Ident {
+		// Names are compared by identifier only while neither is bound to a channel yet. A name
+		// that denotes the provider (self) only carries an identifier for display (the one of the
+		// channel the process took over) and is never captured by a binder spelled like it
 		n.Ident = new.Ident
 		n.Channel = new.Channel
 		n.ChannelID = new.ChannelID
